@@ -3,7 +3,7 @@ import numpy as np
 
 from .. import graphs as G
 from .. import oracles as O
-from .common import call, dtype_variants_agree
+from .common import call, dtype_variants_agree, layout_variants_agree
 
 PROP = 'C16'
 ANCHORS = ['get_components', 'number_of_components']
@@ -181,6 +181,7 @@ def run(case, bct, REC):
                 REC.check(PROP, 'get_components', 'agrees_with_distance_bin', False, dict(det, exception=repr(e)[:200]))
     if n <= 30:
         dtype_variants_agree(REC, PROP, 'get_components', bct.get_components, A)
+        layout_variants_agree(REC, PROP, 'get_components', bct.get_components, W)
     big = sum(1 for c in range(m) if (lab == c).sum() >= 2)
     lm = late_merge_measure(A)
     if big >= 2:
